@@ -280,12 +280,9 @@ def r4_codec(ctx):
               "the parameters entry is not {name: tensor_to_list(value) for every model parameter}")
     g = ix.func("leaspy.models.stateful", "StatefulModel.load_parameters", "C12.R4")
     comps = [x for x in ast.walk(g.node) if isinstance(x, ast.DictComp) and "val_to_tensor" in U(x.value)]
-    ok = False
-    for c in comps:
-        v = c.value
-        p = U(c.key)
-        if isinstance(v, ast.Call) and len(v.args) == 2 and U(v.args[0]) == f"parameters[{p}]" and U(v.args[1]) == f"self.dag[{p}].shape" and U(c.generators[0].iter) in ("params_names", "self.parameters_names"):
-            ok = True
+    from ..astq import Canon
+    cg_ = Canon(g.node)
+    ok = any(cg_.text(c).startswith("{%0: val_to_tensor($1[%0], $0.dag[%0].shape) for %0 in $0.parameters_names") for c in comps)
     ctx.check(ok, "C12.R4", g, comps[0] if comps else g.node, "read back into the declared shape of the same variable",
               "load_parameters does not convert `parameters[p]` with the declared shape of variable p")
     # ModelSettings forwards every other top-level key as a hyperparameter
